@@ -104,6 +104,7 @@ class Session:
         self.ctx_client = self.consumer.sdc.client('Context')
         ops = self.mdib.descriptions.NODETYPE.get(pm.SetContextStateOperationDescriptor)
         self.op_handle = ops[0].Handle
+        self.metric_handle = self.mdib.descriptions.NODETYPE.get(pm.NumericMetricDescriptor)[0].Handle
         self.operation = self.provider.device.get_operation_by_handle(self.op_handle)
         # an ensemble context descriptor (no role provider needed: the handler does not look at the operation target)
         sc = self.mdib.descriptions.handle.get_one('SC.mds0')
@@ -153,6 +154,116 @@ class Session:
         return self.dm.get_state_container_class(d.STATE_QNAME), d
 
 
+# ----------------------------------------------------------------------------------------------------------------
+# translator: where does the thread of a context operation read mdib.mdib_version?  (-> Generated/ContextLocks.lean)
+
+class _OwnedLock:
+    """stand-in for ProviderMdib._tr_lock that knows its owner"""
+
+    def __init__(self, inner):
+        self.inner, self.owner = inner, None
+
+    def acquire(self, *a, **k):
+        import threading
+        ok = self.inner.acquire(*a, **k)
+        if ok:
+            self.owner = threading.get_ident()
+        return ok
+
+    def release(self):
+        self.owner = None
+        self.inner.release()
+
+    def locked(self):
+        return self.inner.locked()
+
+    def __enter__(self):
+        self.acquire()
+        return self
+
+    def __exit__(self, *exc):
+        self.release()
+
+
+def trace_version_reads(sess, scenarios):
+    """Run each scenario (name, start table, op) with `mdib.mdib_version` replaced by a logging property and `_tr_lock` by
+    an owner-aware lock; returns [(name, reads holding the transaction lock, reads not holding it)] for the calling thread."""
+    import threading
+    mdib = sess.mdib
+    cls = type(mdib)
+    log = []
+    active = threading.local()
+
+    def hook():
+        if getattr(active, 'on', False):
+            log.append(mdib._tr_lock.owner == threading.get_ident())  # noqa: SLF001
+
+    class TracedMdib(cls):
+        @property
+        def mdib_version(self):
+            hook()
+            return self.__dict__['_verif_mdib_version']
+
+        @mdib_version.setter
+        def mdib_version(self, value):
+            self.__dict__['_verif_mdib_version'] = value
+
+    with mdib.mdib_lock:
+        inner = mdib._tr_lock  # noqa: SLF001
+        mdib._tr_lock = _OwnedLock(inner)  # noqa: SLF001
+        mdib.__dict__['_verif_mdib_version'] = mdib.__dict__.pop('mdib_version')
+        mdib.__class__ = TracedMdib
+    res = []
+    try:
+        for name, start, op in scenarios:
+            hist = History(sess, {'wf': True, 'lc2': False, 'loc0': None, 'start': start, 'ops': []})
+            hist.run()
+            del log[:]
+            sess.clock.tick = sess.clock_n
+            sess.clock_n += 1
+            active.on = True
+            try:
+                r = hist.do_set_location(op[1], op[2]) if op[0] == 'loc' else hist.do_scs('direct', op[2])
+            finally:
+                active.on = False
+            res.append((name + ('' if r == 'ok' else '-rejected'), sum(1 for x in log if x), sum(1 for x in log if not x)))
+    finally:
+        with mdib.mdib_lock:
+            mdib.__class__ = cls
+            mdib.__dict__['mdib_version'] = mdib.__dict__.pop('_verif_mdib_version')
+            mdib._tr_lock = inner  # noqa: SLF001
+        sess.provider.take_wire()
+    return res
+
+
+def translate(ctx):
+    global _SESSION
+    _SESSION = Session()
+    s100 = [100, 1, 2, 0, 5, 'assoc', 1, None, 10, None]
+    s101 = [101, 1, 2, 0, 5, 'pre', None, None, None, None]
+    s102 = [102, 2, 2, 0, 5, 'assoc', 1, None, 10, None]
+    prop = lambda h, dh, a: [h, dh, 2, 0, 9, a, None, None, None, None]  # noqa: E731
+    scen = [('scs-new-associated', [s100, s101], ['scs', 'direct', [prop(1, 1, 'assoc')]]),
+            ('scs-update-disassociate', [s100, s101], ['scs', 'direct', [prop(100, 1, 'dis')]]),
+            ('scs-update-associate', [s100, s101], ['scs', 'direct', [prop(101, 1, 'assoc')]]),
+            ('scs-two-descriptors', [s100, s102], ['scs', 'direct', [prop(1, 1, 'assoc'), prop(2, 2, 'assoc')]]),
+            ('scs-illegal', [s100], ['scs', 'direct', [prop(100, 1, 'no')]]),
+            ('set-location', [s102], ['loc', 3, None])]
+    rows = trace_version_reads(_SESSION, scen)
+    body = ',\n   '.join(f'("{n}", {a}, {b})' for n, a, b in rows)
+    src = ('/-! generated by harness/props/c10.py (translate): reads of `mdib.mdib_version` by the thread that executes a context\n'
+           'operation, between the call of the operation and its return: (scenario, reads while the thread holds\n'
+           '`ProviderMdib._tr_lock`, reads while it does not) -/\n'
+           'namespace Sdc.Generated.ContextLocks\n'
+           f'def versionReads : List (String × Nat × Nat) :=\n  [{body}]\n'
+           'end Sdc.Generated.ContextLocks\n')
+    core.write_if_changed(core.GENERATED + '/ContextLocks.lean', src)
+    ctx.notes['version_reads'] = rows
+
+
+_SESSION = None
+
+
 class History:
     """runs one case on the implementation; collects driver lines + the expected answers + oracle failures"""
 
@@ -163,6 +274,7 @@ class History:
         self.expected = []     # expected driver answer per line (None = do not compare)
         self.failures = []     # (signature, detail, op index)
         self.capture_errors = 0
+        self.race_stats = []
         self.stats = []
         self.to_real = {}      # model id -> real handle
         self.to_model = {}
@@ -207,11 +319,17 @@ class History:
         return st
 
     def table(self):
-        """canonical content of the real table: model handle -> field list"""
+        """frozen content of the real table: handle -> list of records (copies: the oracle compares the table before and
+        after an operation, live container objects could be changed in place by the code under test)"""
         res = {}
-        objs = list(self.s.mdib.context_states.objects)
-        for st in objs:
-            res.setdefault(st.Handle, []).append(st)
+        with self.s.mdib.mdib_lock:
+            for st in list(self.s.mdib.context_states.objects):
+                rec = types.SimpleNamespace(
+                    Handle=st.Handle, DescriptorHandle=st.DescriptorHandle, DescriptorVersion=st.DescriptorVersion,
+                    StateVersion=st.StateVersion, ContextAssociation=st.ContextAssociation,
+                    BindingMdibVersion=st.BindingMdibVersion, UnbindingMdibVersion=st.UnbindingMdibVersion,
+                    BindingStartTime=st.BindingStartTime, BindingEndTime=st.BindingEndTime, body=get_body(st))
+                res.setdefault(st.Handle, []).append(rec)
         return res
 
     def intern_new(self, tab):
@@ -223,7 +341,7 @@ class History:
 
     def fields(self, st):
         return [self.to_model[st.Handle], self.to_model.get(st.DescriptorHandle, -1), st.DescriptorVersion, st.StateVersion,
-                get_body(st), ASSOC[st.ContextAssociation.value], st.BindingMdibVersion, st.UnbindingMdibVersion,
+                st.body, ASSOC[st.ContextAssociation.value], st.BindingMdibVersion, st.UnbindingMdibVersion,
                 self.t_model(st.BindingStartTime), self.t_model(st.BindingEndTime)]
 
     def dump(self, tab):
@@ -260,25 +378,46 @@ class History:
             v0 = mdib.mdib_version
             s.clock.tick = s.clock_n
             s.clock_n += 1
+            race = len(op) > 3 and op[3] == 'race'
             if op[0] == 'loc':
-                _, loc, dh = op
-                self.lines.append(f'loc {loc} {"-" if dh is None else dh}')
-                res = self.do_set_location(loc, dh)
+                loc, dh = op[1], op[2]
+                line = f'loc {loc} {"-" if dh is None else dh}'
+                call = lambda: self.do_set_location(loc, dh)  # noqa: E731
             else:
-                _, mode, props = op
-                self.lines.append('scs ' + ' '.join(fmt_state(p) for p in props))
-                res = self.do_scs(mode, props)
+                mode, props = op[1], op[2]
+                line = 'scs ' + ' '.join(fmt_state(p) for p in props)
+                call = lambda: self.do_scs('direct' if race else mode, props)  # noqa: E731
+            res = self.with_open_transaction(call) if race else call()
             after = self.table()
             self.intern_new(after)
             v1 = mdib.mdib_version
-            self.expected.append(f'{res} ver={v1} fresh={self.fresh} | {self.dump(after)}')
             wire = s.provider.take_wire()
+            answer = f'{res} ver={v1} fresh={self.fresh} | {self.dump(after)}'
+            if race:
+                # where did the other (metric) transaction commit relative to the operation?  The model gets the same order.
+                other = [w.mdib_version for w in wire if w.action.endswith('EpisodicMetricReport')]
+                mine = [w.mdib_version for w in wire if w.action.endswith('EpisodicContextReport')]
+                forced = not mine or (other and other[0] < mine[0])
+                self.race_stats.append('other-commit-first' if forced else 'operation-first')
+                if forced:
+                    self.lines += ['bump', line]
+                    self.expected += ['ok', answer]
+                    v0 = v1 - 1 if mine else v1       # the version the operation found when it got the transaction lock
+                else:
+                    self.lines += [line, 'bump']
+                    self.expected += [None, 'ok']
+                    v1 = mine[0]
+            else:
+                self.lines.append(line)
+                self.expected.append(answer)
             if s.provider.capture_errors:     # schema validity of reports is C04's business: counted, not judged here
                 self.capture_errors += len(s.provider.capture_errors)
                 del s.provider.capture_errors[:]
             self.stats.append((op[0], res, v1 - v0))
             if wf:
                 self.oracle(idx, op, res, before, after, v0, v1, wire)
+            elif res != 'ok':
+                self.noop_clause(idx, 'set_location' if op[0] == 'loc' else 'SetContextState', res, before, after, v0, v1)
             elif op[0] == 'loc' and res == 'ok' and v1 != v0:
                 # even from a corrupt table set_location leaves exactly one associated state
                 d = self.real(2 if op[2] is None else op[2])
@@ -286,6 +425,39 @@ class History:
                 if n != 1:
                     self.failures.append(('set_location:associated-count', f'{n} associated states of {d} after set_location', idx))
         return self
+
+    def with_open_transaction(self, call):
+        """Run `call` in a second thread while this history's thread-A holds an open metric transaction: the operation has
+        to wait for the transaction lock, the metric transaction commits first (one MdibVersion), then the operation runs."""
+        import threading
+        mdib = self.s.mdib
+        entered, release = threading.Event(), threading.Event()
+        result = {}
+
+        def other():
+            try:
+                with mdib.metric_state_transaction() as mgr:
+                    mgr.get_state(self.s.metric_handle)
+                    entered.set()
+                    release.wait(15)
+            except Exception as ex:  # noqa: BLE001
+                result['other'] = repr(ex)
+                entered.set()
+
+        def operation():
+            result['res'] = call()
+        ta = threading.Thread(target=other, name='verif-open-transaction')
+        tb = threading.Thread(target=operation, name='verif-operation')
+        ta.start()
+        entered.wait(15)
+        tb.start()
+        real_time.sleep(0.2)      # the operation reaches `with mdib.context_state_transaction()` and blocks
+        release.set()
+        ta.join(20)
+        tb.join(20)
+        if 'other' in result or 'res' not in result:
+            raise RuntimeError(f'schedule scenario did not complete: {result}')
+        return result['res']
 
     def do_set_location(self, loc, dh):
         try:
@@ -316,6 +488,16 @@ class History:
             return 'err ' + type(ex).__name__
         return 'ok'
 
+    def noop_clause(self, idx, kind, res, before, after, v0, v1):
+        """a rejected SetContextState / failed set_location: table (all fields) and MdibVersion as before the operation"""
+        rb = {r[0]: r for r in (self.fields(sts[0]) for sts in before.values())}
+        ra = {r[0]: r for r in (self.fields(sts[0]) for sts in after.values())}
+        if v1 != v0 or rb != ra:
+            diff = [f'{self.to_real[h]}: {fmt_state(rb[h]) if h in rb else "absent"} -> {fmt_state(ra[h]) if h in ra else "absent"}'
+                    for h in sorted(set(rb) | set(ra)) if rb.get(h) != ra.get(h)]
+            self.failures.append((f'{kind}:rejected-not-noop',
+                                  f'{res}, no commit, but MdibVersion {v0} -> {v1} and the table changed: ' + '; '.join(diff[:4]), idx))
+
     # ---- the property, evaluated on the implementation
     def oracle(self, idx, op, res, before, after, v0, v1, wire):
         kind = 'set_location' if op[0] == 'loc' else 'SetContextState'
@@ -341,8 +523,7 @@ class History:
             fail('version-step', f'MdibVersion {v0} -> {v1}')
         # rejected operation: nothing changed
         if res != 'ok':
-            if v1 != v0 or self.dump(before) != self.dump(after):
-                fail('rejected-not-noop', f'{res} but table/version changed (version {v0} -> {v1})')
+            self.noop_clause(idx, kind, res, before, after, v0, v1)
         # a state that stopped being associated
         for h, o in old.items():
             if not is_assoc(o):
@@ -542,8 +723,8 @@ class Gen:
         r = self.rng
         rows = self.table_rows()
         mode = 'wire' if r.random() < self.wire_ratio else 'direct'
-        shape = r.choices(['single', 'multi-descr', 'same-descr', 'two-assoc', 'dup-handle', 'invalid', 'empty'],
-                          [36, 20, 18, 4, 4, 9, 1 if mode == 'direct' else 0])[0]
+        shape = r.choices(['single', 'multi-descr', 'same-descr', 'two-assoc', 'dup-handle', 'invalid', 'empty', 'change+invalid'],
+                          [36, 20, 18, 4, 4, 7, 1 if mode == 'direct' else 0, 9])[0]
         valid_kinds = ['new', 'new-assoc', 'update', 'associate', 'disassociate']
         ctx = [1, 2, 3] + ([4] if self.lc2 else [])
         if shape == 'single':
@@ -576,6 +757,24 @@ class Gen:
             props = [self.proposal(r.choice(valid_kinds), rows) for _ in range(r.randint(0, 2))]
             props.insert(r.randint(0, len(props)),
                          self.proposal(r.choice(['bad-handle', 'foreign-handle', 'bad-descriptor', 'illegal']), rows))
+        elif shape == 'change+invalid':
+            # an association-changing proposal that would be accepted alone + one that is rejected, both orders:
+            # the whole call has to be rejected without a trace of the first
+            d = r.choice(ctx)
+            mine = [x for x in rows if x[1] == d]
+            opts = ['new-assoc']
+            if any(x[5] == 'assoc' for x in mine):
+                opts += ['new-assoc', 'disassociate']
+            if any(x[5] != 'assoc' and x[7] is None for x in mine):
+                opts.append('associate')
+            good = self.proposal(r.choice(opts), rows, d)
+            d2 = d if r.random() < 0.6 else r.choice(ctx)
+            bad = self.proposal(r.choice(['bad-handle', 'foreign-handle', 'bad-descriptor', 'illegal', 'bad-handle']), rows, d2)
+            if bad[5] == 'assoc' and good[5] == 'assoc' and bad[1] == good[1]:
+                bad[5] = 'dis'     # not the pre-check (nothing has been processed then), a rejection inside the transaction
+            props = [good, bad] if r.random() < 0.7 else [bad, good]
+            if r.random() < 0.3:
+                props.insert(r.randint(0, 2), self.proposal('new', rows))
         else:
             props = []
         return ['scs', mode, props], shape
@@ -606,6 +805,8 @@ def gen_and_run(sess, rng, wire_ratio, n_ops):
             op, shape = gen.loc(), 'loc'
         else:
             op, shape = gen.scs()
+        if rng.random() < 0.03:      # schedule scenario: another transaction is open when the operation starts
+            op.append('race')
         shapes.append(shape)
         return op
     hist.run(next_op, n_ops)
@@ -627,7 +828,8 @@ def _compare(ctx, hists):
         for k, (ln, exp, got) in enumerate(zip(h.lines, h.expected, got_all)):
             if exp is not None and got != exp:
                 nstart = 2 + len(h.case['start'])
-                case = dict(h.case, ops=h.case['ops'][:max(0, k - nstart) + 1])
+                nops = sum(1 for x in h.lines[nstart:k + 1] if x != 'bump')
+                case = dict(h.case, ops=h.case['ops'][:max(1, nops)])
                 ctx.disagree('context_states table after ' + ln.split(' ')[0], {'case': case, 'line': ln}, got, exp)
                 break
 
@@ -646,6 +848,8 @@ def _report(ctx, hist, shapes=None):
             ctx.count('scs-mode:' + op[1])
             ctx.count(f'scs-proposals:{min(len(op[2]), 4)}')
     ctx.traces += 1
+    for r in hist.race_stats:
+        ctx.count('schedule:' + r)
     if hist.capture_errors:
         ctx.count('report-not-serialisable', hist.capture_errors)
     changes = sum(1 for _, res, dv in hist.stats if res == 'ok' and dv == 1)
@@ -724,7 +928,8 @@ def run(ctx):
 
 
 def _run(ctx):
-    sess = Session()
+    global _SESSION
+    sess, _SESSION = (_SESSION or Session()), None     # the translator's provider/consumer pair is reused
     try:
         hists = []
         for name, case in corpus_cases():
@@ -732,11 +937,12 @@ def _run(ctx):
             hists.append(hist)
             _report(ctx, hist)
             ctx.count('corpus')
-        n_hist = ctx.n(70, 2000)
+        n_hist = ctx.n(60, 2000)
         wire_ratio = 0.12
-        budget = ctx.n(70, 780)      # seconds; the machine is shared, stop generating rather than overrun the tier budget
+        budget = ctx.n(45, 780)      # seconds from here; the machine is shared, stop generating rather than overrun the tier budget
+        t_run0 = real_time.time()
         for i in range(n_hist):
-            if real_time.time() - ctx.t0 > budget:
+            if real_time.time() - t_run0 > budget:
                 ctx.notes['stopped_early'] = f'wall budget reached after {i} of {n_hist} generated histories'
                 break
             rng = ctx.subrng('hist', i)
